@@ -82,6 +82,13 @@ Section FlattenSem.
     rewrite val_node by exact Hi; rewrite Hn; simpl. rewrite !getv_vals_firstn by lia. reflexivity.
   Qed.
 
+  Lemma val_oracleT_f a i x y z u r : arena_wf a -> i < length a -> getn a i = NOracleT x y z u ->
+    val a i r = val a u (upd_xyz r (val a x r) (val a y r) (val a z r)).
+  Proof.
+    intros Hwf Hi Hn. pose proof (arena_wf_nth a i Hwf Hi) as Hw; rewrite Hn in Hw; simpl in Hw.
+    rewrite val_node by exact Hi; rewrite Hn; simpl. rewrite !getv_vals_firstn by lia. reflexivity.
+  Qed.
+
   Theorem flat_sem : forall fuel a m i,
     i < fuel -> arena_wf a -> base_ok O a -> i < length a -> fenv_ok a m -> noT a i ->
     ok_result a (flat O fuel a m i) (fun r => val a i (menv a m r)).
@@ -231,6 +238,662 @@ Section FlattenSem.
     eapply ok_weaken.
     - apply flat_sem; auto. unfold fenv_ok, fenv0, idX, idY, idZ; simpl.
       repeat split; try lia. intros w j H; discriminate H.
+    - intros r; cbn beta. apply (val_ext O osem); auto.
+      + intros w; reflexivity.
+      + unfold env_xyz; simpl. rewrite (val_X O osem), (val_Y O osem), (val_Z O osem) by exact Hb. auto.
+  Qed.
+
+  (* ---------------------------------------------------------------- *)
+  (* Flattening trees that already hold transformed oracles.
+
+     TransformedOracleClause::remap composes the coordinate trees with the
+     current coordinate maps (lazily) but does NOT substitute applied variables
+     inside them.  [good a i]: below every apply node reachable from [i]
+     (through ALL child links, the components of transformed oracles included)
+     the transformed oracles have components that do not depend on the free
+     variables ([closedT]).  No condition at all when no apply node is
+     reachable, or when no transformed oracle lies below an apply ([noT]). *)
+  Definition napp (n : node) : Prop := match n with NApply _ _ _ => False | _ => True end.
+
+  Definition akids (n : node) : list nat :=
+    match n with
+    | NUnary _ x => [x]
+    | NBinary _ x y => [x; y]
+    | NOracleT x y z u => [x; y; z; u]
+    | NRemap x y z t => [x; y; z; t]
+    | NApply v e t => [v; e; t]
+    | _ => []
+    end.
+
+  Inductive areach (a : arena) (root : nat) : nat -> Prop :=
+  | ar_root : areach a root root
+  | ar_kid n k : areach a root n -> In k (akids (getn a n)) -> areach a root k.
+
+  Lemma akids_wf : forall len (n : node) k, node_wf len n -> In k (akids n) -> k < len.
+  Proof. intros len n k; destruct n; simpl; intuition lia. Qed.
+
+  Lemma akid_lt (a : arena) j k : arena_wf a -> j < length a -> In k (akids (getn a j)) -> k < j.
+  Proof. intros Hwf Hj. apply akids_wf. apply arena_wf_nth; assumption. Qed.
+
+  Lemma areach_le a i m : arena_wf a -> i < length a -> areach a i m -> m <= i.
+  Proof.
+    intros Hwf Hi. induction 1 as [|n k Hn IH Hk]; [lia|].
+    pose proof (akid_lt a n k Hwf ltac:(lia) Hk). lia.
+  Qed.
+
+  Lemma areach_trans a r n m : areach a r n -> areach a n m -> areach a r m.
+  Proof. intros H1 H2; induction H2; [exact H1 | econstructor; eauto]. Qed.
+
+  Lemma areach_inv a r m : areach a r m ->
+    m = r \/ exists k, In k (akids (getn a r)) /\ areach a k m.
+  Proof.
+    induction 1 as [|n k Hn IH Hk]; [left; reflexivity|]. right.
+    destruct IH as [->|(k0 & Hk0 & Hr)].
+    - exists k; split; [exact Hk | constructor].
+    - exists k0; split; [exact Hk0 | econstructor; eauto].
+  Qed.
+
+  Lemma areach_extends a a' i m : arena_wf a -> extends a a' -> i < length a ->
+    areach a' i m -> areach a i m.
+  Proof.
+    intros Hwf He Hi. induction 1 as [|n k Hn IH Hk]; [constructor|].
+    pose proof (areach_le a i n Hwf Hi IH) as Hle.
+    rewrite (extends_getn a a' n He) in Hk by lia. econstructor; eauto.
+  Qed.
+
+  (* [val a j] does not depend on the free-variable assignment *)
+  Definition indep (a : arena) (j : nat) : Prop :=
+    forall r r', env_xyz r r' -> val a j r = val a j r'.
+  (* every transformed oracle at or below [i] has closed components *)
+  Definition closedT (a : arena) (i : nat) : Prop :=
+    forall k x y z u, k <= i -> getn a k = NOracleT x y z u ->
+      indep a x /\ indep a y /\ indep a z /\ indep a u.
+  Definition good (a : arena) (i : nat) : Prop :=
+    forall m v e t, areach a i m -> getn a m = NApply v e t -> closedT a t.
+
+  Lemma indep_extends a a' j : extends a a' -> j < length a -> indep a j -> indep a' j.
+  Proof. intros He Hj H r r' Hx. rewrite !(extends_val O osem a a') by auto. apply H; exact Hx. Qed.
+
+  Lemma closedT_extends a a' i : arena_wf a -> extends a a' -> i < length a ->
+    closedT a i -> closedT a' i.
+  Proof.
+    intros Hwf He Hi H k x y z u Hk Hn.
+    rewrite (extends_getn a a' k He) in Hn by lia.
+    pose proof (arena_wf_nth a k Hwf ltac:(lia)) as Hw. rewrite Hn in Hw. cbn [node_wf] in Hw.
+    destruct (H k x y z u Hk Hn) as (H1 & H2 & H3 & H4).
+    repeat split; apply (indep_extends a a'); auto; lia.
+  Qed.
+
+  Lemma closedT_le a i k : k <= i -> closedT a i -> closedT a k.
+  Proof. intros Hk H j x y z u Hj. apply H. lia. Qed.
+
+  Lemma closedT_noT a i : noT a i -> closedT a i.
+  Proof. intros H k x y z u Hk Hn. specialize (H k Hk). rewrite Hn in H. discriminate H. Qed.
+
+  Lemma good_kid a j k : good a j -> In k (akids (getn a j)) -> good a k.
+  Proof.
+    intros H Hk m v e t Hm. apply H. eapply areach_trans; [|exact Hm].
+    econstructor; [constructor | exact Hk].
+  Qed.
+
+  Lemma good_intro a j :
+    (forall v e t, getn a j = NApply v e t -> closedT a t) ->
+    (forall k, In k (akids (getn a j)) -> good a k) -> good a j.
+  Proof.
+    intros H1 H2 m v e t Hm Hn. destruct (areach_inv a j m Hm) as [->|(k & Hk & Hr)].
+    - eapply H1; eauto.
+    - eapply (H2 k Hk); eauto.
+  Qed.
+
+  Lemma good_ext a a' i : arena_wf a -> extends a a' -> i < length a -> good a i -> good a' i.
+  Proof.
+    intros Hwf He Hi H m v e t Hm Hn.
+    pose proof (areach_extends a a' i m Hwf He Hi Hm) as Hm'.
+    pose proof (areach_le a i m Hwf Hi Hm') as Hle.
+    rewrite (extends_getn a a' m He) in Hn by lia.
+    pose proof (arena_wf_nth a m Hwf ltac:(lia)) as Hw. rewrite Hn in Hw. cbn [node_wf] in Hw.
+    apply (closedT_extends a a'); auto; [lia|]. eapply H; eauto.
+  Qed.
+
+  Lemma good_noT a i : arena_wf a -> i < length a -> noT a i -> good a i.
+  Proof.
+    intros Hwf Hi H m v e t Hm Hn. pose proof (areach_le a i m Hwf Hi Hm) as Hle.
+    pose proof (arena_wf_nth a m Hwf ltac:(lia)) as Hw. rewrite Hn in Hw. cbn [node_wf] in Hw.
+    apply closedT_noT. intros j Hj. apply H. lia.
+  Qed.
+
+  Lemma ext_snoc1 (a : arena) n : extends a (a ++ [n]).
+  Proof. exists [n]; reflexivity. Qed.
+
+  Lemma good_push a n : arena_wf a -> node_wf (length a) n -> napp n ->
+    (forall k, In k (akids n) -> good a k) -> good (a ++ [n]) (length a).
+  Proof.
+    intros Hwf Hn Hna Hk. apply good_intro; rewrite getn_snoc_new.
+    - intros v e t E. rewrite E in Hna. destruct Hna.
+    - intros k Hin. apply (good_ext a (a ++ [n])); auto using ext_snoc1.
+      eapply akids_wf; eauto.
+  Qed.
+
+  (* what every constructor guarantees, [good] version *)
+  Definition gr (a : arena) (res : arena * nat) : Prop :=
+    extends a (fst res) /\ arena_wf (fst res) /\ snd res < length (fst res) /\
+    good (fst res) (snd res).
+
+  Lemma gr_same a j : arena_wf a -> j < length a -> good a j -> gr a (a, j).
+  Proof. intros; split; [apply extends_refl|]; cbn [fst snd]; auto. Qed.
+
+  Lemma gr_trans a a1 res : extends a a1 -> gr a1 res -> gr a res.
+  Proof. intros He (H1 & H2 & H3 & H4). split; [eapply extends_trans; eauto|]. auto. Qed.
+
+  Lemma gr_push a n : arena_wf a -> node_wf (length a) n -> napp n ->
+    (forall k, In k (akids n) -> good a k) -> gr a (push a n).
+  Proof.
+    intros Hwf Hn Hna Hk. unfold push, gr; cbn [fst snd].
+    split; [apply ext_snoc1|]. split; [apply arena_wf_snoc; auto|].
+    split; [rewrite app_length; simpl; lia | apply good_push; assumption].
+  Qed.
+
+  Lemma gr_push_const a c : arena_wf a -> gr a (push a (NConst c)).
+  Proof. intros Hwf. apply gr_push; [exact Hwf | exact I | exact I | intros k []]. Qed.
+
+  Lemma gr_push_unary a op x : arena_wf a -> x < length a -> args op = Some 1 -> good a x ->
+    gr a (push a (NUnary op x)).
+  Proof.
+    intros Hwf Hx Hop Hp. apply gr_push; [exact Hwf | split; assumption | exact I|].
+    intros k [<-|[]]; exact Hp.
+  Qed.
+
+  Lemma gr_push_binary a op x y : arena_wf a -> x < length a -> y < length a ->
+    args op = Some 2 -> good a x -> good a y -> gr a (push a (NBinary op x y)).
+  Proof.
+    intros Hwf Hx Hy Hop Hpx Hpy. apply gr_push; [exact Hwf | repeat split; assumption | exact I|].
+    intros k [<-|[<-|[]]]; assumption.
+  Qed.
+
+  Lemma unary_gr a op l : arena_wf a -> l < length a -> args op = Some 1 -> good a l ->
+    gr a (mk_unary O a op l).
+  Proof.
+    intros Hwf Hl Hop Hp. unfold mk_unary. rewrite Hop.
+    assert (Hd : gr a (push a (NUnary op l))) by (apply gr_push_unary; assumption).
+    assert (Hs : gr a (a, l)) by (apply gr_same; assumption).
+    assert (Hk : forall k, In k (akids (getn a l)) -> gr a (a, k)).
+    { intros k Hk. apply gr_same; [exact Hwf | | eapply good_kid; eauto].
+      pose proof (akid_lt a l k Hwf Hl Hk). lia. }
+    destruct (getn a l) as [c|o|o x|o x y|k|x' y' z' t'|x y z t|v e t|] eqn:Hn.
+    - apply gr_push_const; exact Hwf.
+    - destruct op; exact Hd.
+    - destruct op; try exact Hd.
+      + destruct o; try exact Hd. apply Hk; left; reflexivity.
+      + destruct o; try exact Hd; exact Hs.
+    - destruct op; exact Hd.
+    - destruct op; exact Hd.
+    - destruct op; exact Hd.
+    - destruct op; exact Hd.
+    - destruct op; exact Hd.
+    - destruct op; exact Hd.
+  Qed.
+
+  Lemma binary_gr fuel : forall a op l r,
+    arena_wf a -> l < length a -> r < length a -> args op = Some 2 -> good a l -> good a r ->
+    gr a (mk_binary O fuel a op l r).
+  Proof.
+    induction fuel as [|fuel IH]; intros a op l r Hwf Hl Hr Hop Hpl Hpr.
+    all: assert (Hd : gr a (push a (NBinary op l r))) by (apply gr_push_binary; assumption).
+    1: assert (Hrec : forall op' l' r', args op' = Some 2 -> l' < length a -> r' < length a ->
+                 good a l' -> good a r' -> gr a (push a (NBinary op' l' r')))
+         by (intros; apply gr_push_binary; assumption).
+    2: assert (Hrec : forall op' l' r', args op' = Some 2 -> l' < length a -> r' < length a ->
+                 good a l' -> good a r' -> gr a (mk_binary O fuel a op' l' r'))
+         by (intros; apply IH; assumption).
+    all: assert (Hsl : gr a (a, l)) by (apply gr_same; assumption).
+    all: assert (Hsr : gr a (a, r)) by (apply gr_same; assumption).
+    all: assert (Hul : forall o, args o = Some 1 -> gr a (mk_unary O a o l))
+           by (intros; apply unary_gr; assumption).
+    all: assert (Hur : forall o, args o = Some 1 -> gr a (mk_unary O a o r))
+           by (intros; apply unary_gr; assumption).
+    all: assert (Hkl : forall k, In k (akids (getn a l)) -> k < length a /\ good a k)
+           by (intros k Hk; split; [pose proof (akid_lt a l k Hwf Hl Hk); lia | exact (good_kid a l k Hpl Hk)]).
+    all: assert (Hkr : forall k, In k (akids (getn a r)) -> k < length a /\ good a k)
+           by (intros k Hk; split; [pose proof (akid_lt a r k Hwf Hr Hk); lia | exact (good_kid a r k Hpr Hk)]).
+    all: cbn [mk_binary]; rewrite Hop.
+    all: destruct (getn a l) as [c1|o1|o1 x1|o1 x1 y1|k1|x1' y1' z1' t1'|x1 y1 z1 t1|v1 e1 t1|] eqn:Hnl;
+         destruct (getn a r) as [c2|o2|o2 x2|o2 x2 y2|k2|x2' y2' z2' t2'|x2 y2 z2 t2|v2 e2 t2|] eqn:Hnr.
+    all: try (apply gr_push_const; exact Hwf).
+    all: destruct op; try discriminate Hop; try exact Hd.
+    all: repeat match goal with
+         | |- context [if ?c then _ else _] => destruct c eqn:?
+         end; try exact Hd; try exact Hsl; try exact Hsr.
+    all: try (apply Hul; reflexivity).
+    all: try (apply Hur; reflexivity).
+    all: try (destruct (Hkl _ (or_introl eq_refl)) as [? ?]; apply Hrec; auto; fail).
+    all: try (destruct (Hkr _ (or_introl eq_refl)) as [? ?]; apply Hrec; auto; fail).
+  Qed.
+
+  Transparent mk_bin.
+  Corollary bin_gr a op l r :
+    arena_wf a -> l < length a -> r < length a -> args op = Some 2 -> good a l -> good a r ->
+    gr a (mk_bin O a op l r).
+  Proof. intros; unfold mk_bin; apply binary_gr; assumption. Qed.
+  Opaque mk_bin.
+
+  Lemma remap_gr a t x y z : arena_wf a ->
+    t < length a -> x < length a -> y < length a -> z < length a ->
+    good a t -> good a x -> good a y -> good a z -> gr a (mk_remap a t x y z).
+  Proof.
+    intros Hwf Ht Hx Hy Hz Gt Gx Gy Gz. unfold mk_remap.
+    destruct (Nat.eqb x idX && Nat.eqb y idY && Nat.eqb z idZ); [apply gr_same; assumption|].
+    destruct (f_xyz (flags_of a t) || f_oracle (flags_of a t)); [|apply gr_same; assumption].
+    apply gr_push; [exact Hwf | cbn [node_wf]; auto | exact I|].
+    intros k [<-|[<-|[<-|[<-|[]]]]]; assumption.
+  Qed.
+
+  Definition lg (a : arena) (j : nat) : Prop := j < length a /\ good a j.
+
+  Lemma lg_extends a a' j : arena_wf a -> extends a a' -> lg a j -> lg a' j.
+  Proof.
+    intros Hwf He [H1 H2]. pose proof (extends_length a a' He).
+    split; [lia | eapply good_ext; eauto].
+  Qed.
+
+  Definition fenv_gd (a : arena) (m : fenv) : Prop :=
+    lg a (fx m) /\ lg a (fy m) /\ lg a (fz m) /\
+    forall w j, lookup (fvars m) w = Some j -> lg a j.
+
+  Lemma fenv_gd_extends a a' m : arena_wf a -> extends a a' -> fenv_gd a m -> fenv_gd a' m.
+  Proof.
+    intros Hwf He (H1 & H2 & H3 & H4).
+    split; [|split; [|split]]; try (eapply lg_extends; eauto; fail).
+    intros w j Hl. eapply lg_extends; eauto.
+  Qed.
+
+  (* what flat returns satisfies [good] again: the optimiser traverses it and
+     flattens the coordinate trees of its transformed oracles *)
+  Theorem flat_gr : forall fuel a m i,
+    i < fuel -> arena_wf a -> i < length a -> fenv_gd a m -> good a i ->
+    gr a (flat O fuel a m i).
+  Proof.
+    induction fuel as [|fuel IH]; intros a m i Hfuel Hwf Hi Hm Hg; [lia|].
+    cbn [flat].
+    pose proof (arena_wf_nth a i Hwf Hi) as Hnw.
+    pose proof (good_kid a i) as Hks. specialize (Hks).
+    destruct (getn a i) as [c|o|o x|o x y|k|x y z u|x y z t|v e t|] eqn:Hn;
+      cbn [akids node_wf] in *.
+    - apply gr_same; auto.
+    - destruct Hm as ((Hx1 & Hx2) & (Hy1 & Hy2) & (Hz1 & Hz2) & Hmv).
+      destruct o; try (apply gr_same; assumption).
+      destruct (lookup (fvars m) i) as [j|] eqn:Hl.
+      + destruct (Hmv i j Hl). apply gr_same; assumption.
+      + apply gr_same; auto.
+    - (* unary *)
+      destruct Hnw as [Hxi Ha].
+      assert (Hx : x < length a) by lia.
+      pose proof (IH a m x ltac:(lia) Hwf Hx Hm (Hks x Hg (or_introl eq_refl))) as IHx.
+      destruct (flat O fuel a m x) as [a1 x'].
+      destruct IHx as (He1 & Hwf1 & Hx' & Hp1); cbn [fst snd] in *.
+      pose proof (extends_length _ _ He1) as Hl1.
+      eapply gr_trans; [exact He1|].
+      destruct (Nat.eqb x' x) eqn:Hxx.
+      + apply gr_same; [exact Hwf1 | lia | exact (good_ext a a1 i Hwf He1 Hi Hg)].
+      + apply unary_gr; assumption.
+    - (* binary *)
+      destruct Hnw as (Hxi & Hyi & Ha).
+      assert (Hx : x < length a) by lia. assert (Hy : y < length a) by lia.
+      pose proof (IH a m y ltac:(lia) Hwf Hy Hm (Hks y Hg (or_intror (or_introl eq_refl)))) as IHy.
+      destruct (flat O fuel a m y) as [a1 y'].
+      destruct IHy as (He1 & Hwf1 & Hy' & Hp1); cbn [fst snd] in *.
+      pose proof (extends_length _ _ He1) as Hl1.
+      pose proof (IH a1 m x ltac:(lia) Hwf1 ltac:(lia) (fenv_gd_extends a a1 m Hwf He1 Hm)
+                    (good_ext a a1 x Hwf He1 Hx (Hks x Hg (or_introl eq_refl)))) as IHx.
+      destruct (flat O fuel a1 m x) as [a2 x'].
+      destruct IHx as (He2 & Hwf2 & Hx' & Hp2); cbn [fst snd] in *.
+      pose proof (extends_length _ _ He2) as Hl2.
+      assert (He02 : extends a a2) by (eapply extends_trans; eauto).
+      assert (Hpy : good a2 y') by exact (good_ext a1 a2 y' Hwf1 He2 Hy' Hp1).
+      eapply gr_trans; [exact He02|].
+      destruct (Nat.eqb x' x && Nat.eqb y' y) eqn:Hxx.
+      + apply gr_same; [exact Hwf2 | lia | exact (good_ext a a2 i Hwf He02 Hi Hg)].
+      + apply bin_gr; auto; lia.
+    - (* plain oracle *)
+      destruct Hm as ((Hx1 & Hx2) & (Hy1 & Hy2) & (Hz1 & Hz2) & Hmv).
+      apply gr_push; [exact Hwf | cbn [node_wf]; auto | exact I|].
+      intros j [<-|[<-|[<-|[<-|[]]]]]; assumption.
+    - (* transformed oracle *)
+      destruct Hnw as (Hxi & Hyi & Hzi & Hui).
+      destruct Hm as ((Hx1 & Hx2) & (Hy1 & Hy2) & (Hz1 & Hz2) & Hmv).
+      assert (Gx : good a x) by (apply Hks; simpl; auto).
+      assert (Gy : good a y) by (apply Hks; simpl; auto).
+      assert (Gz : good a z) by (apply Hks; simpl; auto).
+      assert (Gu : good a u) by (apply Hks; simpl; auto).
+      pose proof (remap_gr a x (fx m) (fy m) (fz m) Hwf ltac:(lia) Hx1 Hy1 Hz1 Gx Hx2 Hy2 Hz2) as R1.
+      destruct (mk_remap a x (fx m) (fy m) (fz m)) as [a1 x'].
+      destruct R1 as (He1 & Hwf1 & Hx' & Gx'); cbn [fst snd] in *.
+      pose proof (extends_length _ _ He1) as Hl1.
+      assert (E1 : forall j, j < length a -> good a j -> good a1 j)
+        by (intros j Hj Hgj; exact (good_ext a a1 j Hwf He1 Hj Hgj)).
+      pose proof (remap_gr a1 y (fx m) (fy m) (fz m) Hwf1 ltac:(lia) ltac:(lia) ltac:(lia) ltac:(lia)
+                    (E1 y ltac:(lia) Gy) (E1 _ Hx1 Hx2) (E1 _ Hy1 Hy2) (E1 _ Hz1 Hz2)) as R2.
+      destruct (mk_remap a1 y (fx m) (fy m) (fz m)) as [a2 y'].
+      destruct R2 as (He2 & Hwf2 & Hy' & Gy'); cbn [fst snd] in *.
+      pose proof (extends_length _ _ He2) as Hl2.
+      assert (He02 : extends a a2) by (eapply extends_trans; eauto).
+      assert (E2 : forall j, j < length a -> good a j -> good a2 j)
+        by (intros j Hj Hgj; exact (good_ext a a2 j Hwf He02 Hj Hgj)).
+      pose proof (remap_gr a2 z (fx m) (fy m) (fz m) Hwf2 ltac:(lia) ltac:(lia) ltac:(lia) ltac:(lia)
+                    (E2 z ltac:(lia) Gz) (E2 _ Hx1 Hx2) (E2 _ Hy1 Hy2) (E2 _ Hz1 Hz2)) as R3.
+      destruct (mk_remap a2 z (fx m) (fy m) (fz m)) as [a3 z'].
+      destruct R3 as (He3 & Hwf3 & Hz' & Gz'); cbn [fst snd] in *.
+      pose proof (extends_length _ _ He3) as Hl3.
+      assert (He03 : extends a a3) by (eapply extends_trans; eauto).
+      assert (He13 : extends a1 a3) by (eapply extends_trans; eauto).
+      eapply gr_trans; [exact He03|].
+      apply gr_push; [exact Hwf3 | cbn [node_wf]; lia | exact I|].
+      intros j [<-|[<-|[<-|[<-|[]]]]].
+      + eapply good_ext; [exact Hwf1 | exact He13 | exact Hx' | exact Gx'].
+      + eapply good_ext; [exact Hwf2 | exact He3 | exact Hy' | exact Gy'].
+      + exact Gz'.
+      + eapply good_ext; [exact Hwf | exact He03 | lia | exact Gu].
+    - (* remap *)
+      destruct Hnw as (Hxi & Hyi & Hzi & Hti).
+      assert (Hx : x < length a) by lia. assert (Hy : y < length a) by lia.
+      assert (Hz : z < length a) by lia. assert (Ht : t < length a) by lia.
+      assert (Sx : good a x) by (apply Hks; simpl; auto).
+      assert (Sy : good a y) by (apply Hks; simpl; auto).
+      assert (Sz : good a z) by (apply Hks; simpl; auto).
+      assert (St : good a t) by (apply Hks; simpl; auto).
+      pose proof (IH a m x ltac:(lia) Hwf Hx Hm Sx) as IHx.
+      destruct (flat O fuel a m x) as [a1 x'].
+      destruct IHx as (He1 & Hwf1 & Hx' & Hp1); cbn [fst snd] in *.
+      pose proof (extends_length _ _ He1) as Hl1.
+      pose proof (IH a1 m y ltac:(lia) Hwf1 ltac:(lia) (fenv_gd_extends a a1 m Hwf He1 Hm)
+                    (good_ext a a1 y Hwf He1 Hy Sy)) as IHy.
+      destruct (flat O fuel a1 m y) as [a2 y'].
+      destruct IHy as (He2 & Hwf2 & Hy' & Hp2); cbn [fst snd] in *.
+      pose proof (extends_length _ _ He2) as Hl2.
+      assert (He02 : extends a a2) by (eapply extends_trans; eauto).
+      pose proof (IH a2 m z ltac:(lia) Hwf2 ltac:(lia) (fenv_gd_extends a a2 m Hwf He02 Hm)
+                    (good_ext a a2 z Hwf He02 Hz Sz)) as IHz.
+      destruct (flat O fuel a2 m z) as [a3 z'].
+      destruct IHz as (He3 & Hwf3 & Hz' & Hp3); cbn [fst snd] in *.
+      pose proof (extends_length _ _ He3) as Hl3.
+      assert (He03 : extends a a3) by (eapply extends_trans; eauto).
+      assert (He13 : extends a1 a3) by (eapply extends_trans; eauto).
+      set (m' := {| fx := x'; fy := y'; fz := z'; fvars := fvars m |}).
+      assert (Hm' : fenv_gd a3 m').
+      { destruct (fenv_gd_extends a a3 m Hwf He03 Hm) as (_ & _ & _ & Hmv).
+        split; [|split; [|split]]; cbn [m' fx fy fz fvars].
+        - apply (lg_extends a1 a3); auto. split; assumption.
+        - apply (lg_extends a2 a3); auto. split; assumption.
+        - split; assumption.
+        - exact Hmv. }
+      eapply gr_trans; [exact He03|].
+      apply IH; auto; try lia. exact (good_ext a a3 t Hwf He03 Ht St).
+    - (* apply *)
+      destruct Hnw as (Hvi & Hei & Hti).
+      assert (He : e < length a) by lia. assert (Ht : t < length a) by lia.
+      assert (Se : good a e) by (apply Hks; simpl; auto).
+      assert (St : good a t) by (apply Hks; simpl; auto).
+      pose proof (IH a m e ltac:(lia) Hwf He Hm Se) as IHe.
+      destruct (flat O fuel a m e) as [a1 e'].
+      destruct IHe as (He1 & Hwf1 & He' & Hp1); cbn [fst snd] in *.
+      pose proof (extends_length _ _ He1) as Hl1.
+      set (m' := {| fx := fx m; fy := fy m; fz := fz m; fvars := (v, e') :: fvars m |}).
+      assert (Hm' : fenv_gd a1 m').
+      { destruct (fenv_gd_extends a a1 m Hwf He1 Hm) as (H1 & H2 & H3 & Hmv).
+        split; [|split; [|split]]; cbn [m' fx fy fz fvars]; auto.
+        intros w j. cbn [lookup]. destruct (Nat.eqb w v).
+        - intros H; inversion H; subst. split; assumption.
+        - apply Hmv. }
+      eapply gr_trans; [exact He1|].
+      apply IH; auto; try lia. exact (good_ext a a1 t Hwf He1 Ht St).
+    - apply gr_same; auto.
+  Qed.
+
+  Lemma fenv0_gd a : arena_wf a -> base_ok O a -> fenv_gd a fenv0.
+  Proof.
+    intros Hwf Hb. pose proof (base_ok_len O a Hb) as Hl.
+    assert (H : forall j, j < 3 -> lg a j).
+    { intros j Hj. split; [lia|]. apply good_intro; rewrite (base_getn O a j Hb) by lia;
+        destruct j as [|[|[|j]]]; try lia; cbn; try (intros; discriminate); intros k []. }
+    split; [|split; [|split]]; cbn [fenv0 fx fy fz fvars]; try (apply H; unfold idX, idY, idZ; lia).
+    intros w j Hw; discriminate Hw.
+  Qed.
+
+  Theorem flatten_gr a i : arena_wf a -> base_ok O a -> i < length a -> good a i ->
+    gr a (flatten O a i).
+  Proof.
+    intros Hwf Hb Hi Hg. unfold flatten. destruct (f_remap (flags_of a i)).
+    - apply flat_gr; auto. apply fenv0_gd; assumption.
+    - apply gr_same; assumption.
+  Qed.
+
+  (* evaluating a closed-or-unbound component in the body environment *)
+  Lemma comp_menv a m j r : arena_wf a -> j < length a -> (fvars m = [] \/ indep a j) ->
+    val a j (menv a m r) = val a j (upd_xyz r (val a (fx m) r) (val a (fy m) r) (val a (fz m) r)).
+  Proof.
+    intros Hwf Hj [E|Hin].
+    - apply (val_ext O osem); auto.
+      + intros w. cbn [menv upd_xyz ev]. rewrite E. reflexivity.
+      + unfold env_xyz; cbn [menv upd_xyz ex ey ez]. auto.
+    - apply Hin. unfold env_xyz; cbn [menv upd_xyz ex ey ez]. auto.
+  Qed.
+
+  Lemma comp_menv_xyz a m j r X Y Z : arena_wf a -> j < length a -> (fvars m = [] \/ indep a j) ->
+    val a j (upd_xyz (menv a m r) X Y Z) = val a j (upd_xyz r X Y Z).
+  Proof.
+    intros Hwf Hj [E|Hin].
+    - apply (val_ext O osem); auto.
+      + intros w. cbn [menv upd_xyz ev]. rewrite E. reflexivity.
+      + unfold env_xyz; cbn [upd_xyz ex ey ez]. auto.
+    - apply Hin. unfold env_xyz; cbn [upd_xyz ex ey ez]. auto.
+  Qed.
+
+  Definition fstate_ok (a : arena) (m : fenv) (i : nat) : Prop :=
+    good a i /\ (fvars m = [] \/ closedT a i).
+
+  Lemma fstate_step a a1 m j i : arena_wf a -> extends a a1 -> i < length a ->
+    In j (akids (getn a i)) -> fstate_ok a m i -> fstate_ok a1 m j.
+  Proof.
+    intros Hwf He Hi Hj [Ha Hc]. pose proof (akid_lt a i j Hwf Hi Hj) as Hlt.
+    split; [apply (good_ext a a1); auto; [lia | eapply good_kid; eauto]|].
+    destruct Hc as [E|Hc]; [left; exact E|right].
+    apply (closedT_extends a a1); auto; [lia|].
+    apply (closedT_le a i j); [lia | exact Hc].
+  Qed.
+
+  Theorem flat_sem_o : forall fuel a m i,
+    i < fuel -> arena_wf a -> base_ok O a -> i < length a -> fenv_ok a m -> fstate_ok a m i ->
+    ok_result a (flat O fuel a m i) (fun r => val a i (menv a m r)).
+  Proof.
+    induction fuel as [|fuel IH]; intros a m i Hfuel Hwf Hb Hi Hm Hfs; [lia|].
+    cbn [flat].
+    pose proof (arena_wf_nth a i Hwf Hi) as Hnw.
+    assert (Hfs' : forall a1 j, extends a a1 -> In j (akids (getn a i)) -> fstate_ok a1 m j)
+      by (intros a1 j He0 Hj; eapply fstate_step; eauto).
+    destruct (getn a i) as [c|o|o x|o x y|k|x y z u|x y z t|v e t|] eqn:Hn; simpl in Hnw.
+    - (* constant *)
+      apply ok_same; auto. intros r. rewrite !(val_const O osem a i c) by auto. reflexivity.
+    - (* nullary *)
+      destruct Hm as (Hmx & Hmy & Hmz & Hmv).
+      destruct o; try (apply ok_same; auto; intros r; rewrite !(val_node O osem a i) by exact Hi; rewrite Hn; reflexivity).
+      + destruct (lookup (fvars m) i) as [j|] eqn:Hl.
+        * apply ok_same; auto; [eapply Hmv; eauto|]. intros r.
+          rewrite (val_node O osem a i) by exact Hi. rewrite Hn. simpl. rewrite Hl. reflexivity.
+        * apply ok_same; auto. intros r.
+          rewrite !(val_node O osem a i) by exact Hi. rewrite Hn. simpl. rewrite Hl. reflexivity.
+    - (* unary *)
+      destruct Hnw as [Hxi Ha].
+      assert (Hx : x < length a) by lia.
+      specialize (IH a m x ltac:(lia) Hwf Hb Hx Hm (Hfs' a x (extends_refl a) ltac:(simpl; auto))).
+      destruct (flat O fuel a m x) as [a1 x'] eqn:Hf. destruct IH as (He1 & Hwf1 & Hx' & Hv1); cbn [fst snd] in *.
+      assert (Hval : forall r, val a i (menv a m r) = o_un O o (val a1 x' r)).
+      { intros r. destruct (val_unary O osem a i o x (menv a m r) Hwf Hi Hn) as [_ ->]. rewrite Hv1; reflexivity. }
+      destruct (Nat.eqb x' x) eqn:Hxx.
+      + apply Nat.eqb_eq in Hxx; subst x'.
+        repeat split; simpl; auto; [pose proof (extends_length _ _ He1); lia|].
+        intros r. rewrite Hval. rewrite (extends_val O osem a a1) by auto.
+        destruct (val_unary O osem a i o x r Hwf Hi Hn) as [_ ->].
+        rewrite <- (extends_val O osem a a1 x r) by auto. reflexivity.
+      + eapply ok_trans; [exact He1|]. eapply ok_weaken; [apply unary_sem; auto|].
+        intros r; cbn beta. symmetry; apply Hval.
+    - (* binary: rhs first, then lhs *)
+      destruct Hnw as (Hxi & Hyi & Ha).
+      assert (Hx : x < length a) by lia. assert (Hy : y < length a) by lia.
+      pose proof (IH a m y ltac:(lia) Hwf Hb Hy Hm (Hfs' a y (extends_refl a) ltac:(simpl; auto))) as IHy.
+      destruct (flat O fuel a m y) as [a1 y'] eqn:Hfy. destruct IHy as (He1 & Hwf1 & Hy' & Hv1); cbn [fst snd] in *.
+      pose proof (base_ok_extends O a a1 Hb He1) as Hb1.
+      pose proof (extends_length _ _ He1) as Hl1.
+      pose proof (IH a1 m x ltac:(lia) Hwf1 Hb1 ltac:(lia) (fenv_ok_extends a a1 m Hm He1)
+                     (Hfs' a1 x He1 ltac:(simpl; auto))) as IHx.
+      apply (IH_transport a a1 m x _ Hwf Hx Hm He1) in IHx.
+      destruct (flat O fuel a1 m x) as [a2 x'] eqn:Hfx. destruct IHx as (He2 & Hwf2 & Hx' & Hv2); cbn [fst snd] in *.
+      pose proof (extends_length _ _ He2) as Hl2.
+      assert (He02 : extends a a2) by (eapply extends_trans; eauto).
+      assert (Hval : forall r, val a i (menv a m r) = o_bin O o (val a2 x' r) (val a2 y' r)).
+      { intros r. destruct (val_binary O osem a i o x y (menv a m r) Hwf Hi Hn) as (_ & _ & ->).
+        rewrite Hv2. rewrite (extends_val O osem a1 a2 y') by auto. rewrite Hv1. reflexivity. }
+      destruct (Nat.eqb x' x && Nat.eqb y' y) eqn:Hxx.
+      + apply andb_true_iff in Hxx; destruct Hxx as [H1 H2].
+        apply Nat.eqb_eq in H1, H2; subst x' y'.
+        repeat split; simpl; auto; [lia|].
+        intros r. rewrite Hval. rewrite (extends_val O osem a a2 i) by auto.
+        destruct (val_binary O osem a i o x y r Hwf Hi Hn) as (_ & _ & ->).
+        rewrite !(extends_val O osem a a2) by auto. reflexivity.
+      + eapply ok_trans; [exact He02|]. eapply ok_weaken; [apply bin_sem; auto; lia|].
+        intros r; cbn beta. symmetry; apply Hval.
+    - (* plain oracle: wrapped with the current coordinate trees *)
+      destruct Hm as (Hmx & Hmy & Hmz & Hmv).
+      apply ok_push; simpl; auto. intros r.
+      change (getv O (vals O osem a) i) with (val a i).
+      change (getv O (vals O osem a) (fx m)) with (val a (fx m)).
+      change (getv O (vals O osem a) (fy m)) with (val a (fy m)).
+      change (getv O (vals O osem a) (fz m)) with (val a (fz m)).
+      rewrite !(val_node O osem a i) by exact Hi. rewrite Hn. reflexivity.
+    - (* already-transformed oracle: TransformedOracleClause::remap composes the
+         coordinate trees with the current coordinate maps, lazily *)
+      destruct Hnw as (Hxi & Hyi & Hzi & Hui).
+      assert (Hx : x < length a) by lia. assert (Hy : y < length a) by lia.
+      assert (Hz : z < length a) by lia. assert (Hu : u < length a) by lia.
+      destruct Hm as (Hmx & Hmy & Hmz & Hmv).
+      assert (Hcl : forall j, (j = x \/ j = y \/ j = z \/ j = u) -> fvars m = [] \/ indep a j).
+      { intros j Hj. destruct Hfs as [_ [E|Hc]]; [left; exact E|right].
+        destruct (Hc i x y z u (le_n i) Hn) as (H1 & H2 & H3 & H4).
+        destruct Hj as [->|[->|[->| ->]]]; assumption. }
+      pose proof (remap_sem O osem a x (fx m) (fy m) (fz m) Hwf Hb Hx Hmx Hmy Hmz) as R1.
+      destruct (mk_remap a x (fx m) (fy m) (fz m)) as [a1 x'].
+      destruct R1 as (He1 & Hwf1 & Hx' & Hv1); cbn [fst snd] in *.
+      pose proof (extends_length _ _ He1) as Hl1.
+      pose proof (remap_sem O osem a1 y (fx m) (fy m) (fz m) Hwf1 (base_ok_extends O a a1 Hb He1)
+                    ltac:(lia) ltac:(lia) ltac:(lia) ltac:(lia)) as R2.
+      destruct (mk_remap a1 y (fx m) (fy m) (fz m)) as [a2 y'].
+      destruct R2 as (He2 & Hwf2 & Hy' & Hv2); cbn [fst snd] in *.
+      pose proof (extends_length _ _ He2) as Hl2.
+      assert (He02 : extends a a2) by (eapply extends_trans; eauto).
+      pose proof (remap_sem O osem a2 z (fx m) (fy m) (fz m) Hwf2 (base_ok_extends O a a2 Hb He02)
+                    ltac:(lia) ltac:(lia) ltac:(lia) ltac:(lia)) as R3.
+      destruct (mk_remap a2 z (fx m) (fy m) (fz m)) as [a3 z'].
+      destruct R3 as (He3 & Hwf3 & Hz' & Hv3); cbn [fst snd] in *.
+      pose proof (extends_length _ _ He3) as Hl3.
+      assert (He03 : extends a a3) by (eapply extends_trans; eauto).
+      assert (He13 : extends a1 a3) by (eapply extends_trans; eauto).
+      eapply ok_trans; [exact He03|].
+      apply ok_push; [exact Hwf3 | cbn [node_wf]; lia|].
+      intros r. cbn [nodeval].
+      change (getv O (vals O osem a3) u) with (val a3 u).
+      change (getv O (vals O osem a3) x') with (val a3 x').
+      change (getv O (vals O osem a3) y') with (val a3 y').
+      change (getv O (vals O osem a3) z') with (val a3 z').
+      rewrite Hv3, (extends_val O osem a2 a3 y' r He3 Hy'), Hv2,
+              (extends_val O osem a1 a3 x' r He13 Hx'), Hv1.
+      rewrite !(extends_val O osem a2 a3) by first [assumption | lia].
+      rewrite !(extends_val O osem a1 a2) by first [assumption | lia].
+      rewrite !(extends_val O osem a a1) by first [assumption | lia].
+      rewrite (val_oracleT_f a i x y z u (menv a m r) Hwf Hi Hn).
+      rewrite (comp_menv_xyz a m u r) by auto.
+      rewrite !(comp_menv a m) by auto. reflexivity.
+    - (* remap *)
+      destruct Hnw as (Hxi & Hyi & Hzi & Hti).
+      assert (Hx : x < length a) by lia. assert (Hy : y < length a) by lia.
+      assert (Hz : z < length a) by lia. assert (Ht : t < length a) by lia.
+      pose proof (IH a m x ltac:(lia) Hwf Hb Hx Hm (Hfs' a x (extends_refl a) ltac:(simpl; auto))) as IHx.
+      destruct (flat O fuel a m x) as [a1 x'] eqn:Hfx. destruct IHx as (He1 & Hwf1 & Hx' & Hv1); cbn [fst snd] in *.
+      pose proof (base_ok_extends O a a1 Hb He1) as Hb1.
+      pose proof (extends_length _ _ He1) as Hl1.
+      pose proof (IH a1 m y ltac:(lia) Hwf1 Hb1 ltac:(lia) (fenv_ok_extends a a1 m Hm He1)
+                     (Hfs' a1 y He1 ltac:(simpl; auto))) as IHy.
+      apply (IH_transport a a1 m y _ Hwf Hy Hm He1) in IHy.
+      destruct (flat O fuel a1 m y) as [a2 y'] eqn:Hfy. destruct IHy as (He2 & Hwf2 & Hy' & Hv2); cbn [fst snd] in *.
+      pose proof (extends_length _ _ He2) as Hl2.
+      assert (He02 : extends a a2) by (eapply extends_trans; eauto).
+      pose proof (base_ok_extends O a a2 Hb He02) as Hb2.
+      pose proof (IH a2 m z ltac:(lia) Hwf2 Hb2 ltac:(lia) (fenv_ok_extends a a2 m Hm He02)
+                     (Hfs' a2 z He02 ltac:(simpl; auto))) as IHz.
+      apply (IH_transport a a2 m z _ Hwf Hz Hm He02) in IHz.
+      destruct (flat O fuel a2 m z) as [a3 z'] eqn:Hfz. destruct IHz as (He3 & Hwf3 & Hz' & Hv3); cbn [fst snd] in *.
+      pose proof (extends_length _ _ He3) as Hl3.
+      assert (He03 : extends a a3) by (eapply extends_trans; eauto).
+      assert (He13 : extends a1 a3) by (eapply extends_trans; eauto).
+      pose proof (base_ok_extends O a a3 Hb He03) as Hb3.
+      set (m' := {| fx := x'; fy := y'; fz := z'; fvars := fvars m |}).
+      assert (Hm' : fenv_ok a3 m').
+      { destruct Hm as (Hmx & Hmy & Hmz & Hmv). repeat split; simpl; try lia.
+        intros w j Hl. specialize (Hmv w j Hl). lia. }
+      assert (Hfs3 : fstate_ok a3 m' t) by (apply (Hfs' a3 t He03); simpl; auto).
+      pose proof (IH a3 m' t ltac:(lia) Hwf3 Hb3 ltac:(lia) Hm' Hfs3) as IHt.
+      eapply ok_trans; [exact He03|]. eapply ok_weaken; [exact IHt|].
+      intros r; cbn beta.
+      rewrite (val_remap a i x y z t) by auto.
+      rewrite (extends_val O osem a a3 t) by auto.
+      apply (val_ext O osem); auto.
+      + intros w; simpl. destruct (lookup (fvars m) w) as [j|] eqn:Hl; [|reflexivity].
+        destruct Hm as (_ & _ & _ & Hmv). apply (extends_val O osem); auto. eapply Hmv; eauto.
+      + unfold env_xyz; simpl. repeat split.
+        * rewrite (extends_val O osem a1 a3 x') by auto. apply Hv1.
+        * rewrite (extends_val O osem a2 a3 y') by auto. apply Hv2.
+        * apply Hv3.
+    - (* apply *)
+      destruct Hnw as (Hvi & Hei & Hti).
+      assert (He : e < length a) by lia. assert (Ht : t < length a) by lia.
+      pose proof (IH a m e ltac:(lia) Hwf Hb He Hm (Hfs' a e (extends_refl a) ltac:(simpl; auto))) as IHe.
+      destruct (flat O fuel a m e) as [a1 e'] eqn:Hfe. destruct IHe as (He1 & Hwf1 & He' & Hv1); cbn [fst snd] in *.
+      pose proof (base_ok_extends O a a1 Hb He1) as Hb1.
+      pose proof (extends_length _ _ He1) as Hl1.
+      set (m' := {| fx := fx m; fy := fy m; fz := fz m; fvars := (v, e') :: fvars m |}).
+      assert (Hm' : fenv_ok a1 m').
+      { destruct Hm as (Hmx & Hmy & Hmz & Hmv). repeat split; simpl; try lia.
+        intros w j. destruct (Nat.eqb w v); [intros H; inversion H; subst; lia|].
+        intros Hl. specialize (Hmv w j Hl). lia. }
+      assert (Hfs1 : fstate_ok a1 m' t).
+      { destruct Hfs as [Hap _]. split.
+        - apply (good_ext a a1); auto. apply (good_kid a i); [exact Hap | rewrite Hn; simpl; auto].
+        - right. apply (closedT_extends a a1); auto. apply (Hap i v e t (ar_root a i) Hn). }
+      pose proof (IH a1 m' t ltac:(lia) Hwf1 Hb1 ltac:(lia) Hm' Hfs1) as IHt.
+      eapply ok_trans; [exact He1|]. eapply ok_weaken; [exact IHt|].
+      intros r; cbn beta.
+      rewrite (val_apply a i v e t) by auto.
+      rewrite (extends_val O osem a a1 t) by auto.
+      destruct Hm as (Hmx & Hmy & Hmz & Hmv).
+      apply (val_ext O osem); auto.
+      + intros w; simpl. destruct (Nat.eqb w v); [apply Hv1|].
+        destruct (lookup (fvars m) w) as [j|] eqn:Hl; [|reflexivity].
+        apply (extends_val O osem); auto. eapply Hmv; eauto.
+      + unfold env_xyz; simpl. rewrite !(extends_val O osem a a1) by auto. auto.
+    - (* invalid *)
+      apply ok_same; auto. intros r. rewrite !(val_node O osem a i) by exact Hi. rewrite Hn. reflexivity.
+  Qed.
+
+  (* Tree::flatten on any well-formed source, transformed oracles included *)
+  Theorem flatten_sem_o a i :
+    arena_wf a -> base_ok O a -> i < length a -> good a i ->
+    ok_result a (flatten O a i) (fun r => val a i r).
+  Proof.
+    intros Hwf Hb Hi Hap. unfold flatten.
+    destruct (f_remap (flags_of a i)); [|apply ok_same; auto].
+    pose proof (base_ok_len O a Hb) as Hl.
+    eapply ok_weaken.
+    - apply flat_sem_o; auto.
+      + unfold fenv_ok, fenv0, idX, idY, idZ; simpl.
+        repeat split; try lia. intros w j H; discriminate H.
+      + split; [exact Hap | left; reflexivity].
     - intros r; cbn beta. apply (val_ext O osem); auto.
       + intros w; reflexivity.
       + unfold env_xyz; simpl. rewrite (val_X O osem), (val_Y O osem), (val_Z O osem) by exact Hb. auto.
